@@ -13,8 +13,10 @@ pub mod c03;
 pub mod c04;
 pub mod c05;
 pub mod c06;
+pub mod c07;
 pub mod c08;
 pub mod c09;
+pub mod c11;
 pub mod c15;
 pub mod c16;
 pub mod c17;
@@ -148,7 +150,7 @@ pub struct Property {
 }
 
 pub fn all() -> Vec<Property> {
-    vec![c02::property(), c03::property(), c04::property(), c05::property(), c06::property(), c08::property(), c09::property(), c15::property(), c16::property(), c17::property()]
+    vec![c02::property(), c03::property(), c04::property(), c05::property(), c06::property(), c07::property(), c08::property(), c09::property(), c11::property(), c15::property(), c16::property(), c17::property()]
 }
 
 pub fn get(id: &str) -> Option<Property> {
